@@ -42,6 +42,8 @@ def dispatch (d : DS) (line : String) : DS × String :=
   | "C11" :: "rf" :: rest => (d, Driver.C11.handle ("rf" :: rest))
   | "C11" :: rest => let (s, o) := Driver.Chan.handle "C11" d.chan rest; ({ d with chan := s }, o)
   | "C18" :: "rf" :: rest => (d, Driver.C11.handle18 ("rf" :: rest))
+  | "C18" :: "qfill" :: rest => (d, Driver.C11.handle18 ("qfill" :: rest))
+  | "C18" :: "park" :: rest => (d, Driver.C11.handle18 ("park" :: rest))
   | "C18" :: rest => let (s, o) := Driver.Chan.handle "C18" d.chan rest; ({ d with chan := s }, o)
   | "C07" :: rest =>
     match rest with
